@@ -155,8 +155,25 @@ func verifWorldRecords(kind int) []dnsdata.VerifRec {
 		return verifRootWorld()
 	case 2:
 		return verifRootDelegationWorld()
+	case 4:
+		return verifLocatedZoneWorld()
 	}
 	return nil
+}
+
+// verifLocatedZoneWorld: a zone every record of which is tagged with location L1 (clients of
+// 10/8), nothing untagged: its apex is the first resource-record key of the store.
+func verifLocatedZoneWorld() []dnsdata.VerifRec {
+	return []dnsdata.VerifRec{
+		{Kind: 'Z', Dom: []byte("b"), TTL: 2560, Target: []byte("ns.b"), Loc: verifL1},
+		{Kind: '&', Dom: []byte("b"), TTL: 259200, Target: []byte("ns.b"), IP: []byte{192, 0, 2, 1}, Loc: verifL1},
+		{Kind: '+', Dom: []byte("b"), TTL: 300, IP: []byte{192, 0, 2, 10}, Weight: 1, Loc: verifL1},
+		{Kind: '+', Dom: []byte("c.b"), TTL: 301, IP: []byte{192, 0, 2, 11}, Weight: 1, Loc: verifL1},
+		{Kind: 'M', Dom: []byte("b"), Lmap: verifMapM},
+		{Kind: 'M', Dom: []byte("b"), Wild: true, Lmap: verifMapM},
+		{Kind: '%', Lmap: verifMapM, IP: v4in6(10, 0, 0, 0), Ones: 104, Loc: verifL1},
+		{Kind: '%', Lmap: verifMapM, IP: v4in6(11, 0, 0, 0), Ones: 104, Loc: verifL2},
+	}
 }
 
 type verifEnv struct {
@@ -195,6 +212,7 @@ var verifQueryNames = [][]string{
 	{"\x00", "\x01a\x00", "\x01?\x00", "\x01d\x00", "\x01x\x01d\x00"},
 	{"\x00", "\x01a\x00", "\x01?\x00"},
 	{"\x00", "\x01z\x00", "\x01?\x01z\x00"},
+	{"\x01b\x00", "\x01?\x01b\x00", "\x01?\x00"},
 }
 
 var verifLabelBytes = []byte{'q', 'Q', '7', '-', '_', '*', '.', '\\', '@', ' ', 0x00, 0x7f, 0xff}
